@@ -586,6 +586,16 @@ def callees(ctx, qual: str) -> List[str]:
                 init = M.method(k[1][1], "__init__") if k[1][1] in M.classes else None
                 if init:
                     out.append(init)
+            else:
+                # receiver not typed: a method name with a single definition in the repository resolves by name
+                # (e.g. `self._item_class().from_series(...)`); copy.deepcopy reaches every copy hook
+                nm = n.func.attr if isinstance(n.func, ast.Attribute) else n.func.id if isinstance(n.func, ast.Name) else None
+                if nm in ("deepcopy", "copy") and not (isinstance(n.func, ast.Attribute) and nm == "copy"):
+                    out.extend(q for q in M.funcs if q.endswith(("." + "__deepcopy__", "." + "__copy__")) and "_sa_controls" not in q)
+                elif isinstance(n.func, ast.Attribute) and nm and not nm.startswith("__"):
+                    cands = [q for q in M.funcs_named(nm) if "_sa_controls" not in q and M.funcs[q].cls]
+                    if len(cands) == 1:
+                        out.append(cands[0])
         elif isinstance(n, ast.Attribute) and ty is not None and isinstance(n.ctx, ast.Load):
             # property getters written as methods (tail_offset, head_offset, beat_length, ...) and indexing dunders
             try:
